@@ -11,7 +11,7 @@ spec -> code  TLC simulation generates behaviours of HostilePeer for both roles;
               REGISTERED user's key and sent to a real server mux (role server) or, by a hostile server, to a real client mux (role
               client), TCP and UDP, while another user's session in the same process does an echo after every unit.  TLC enumerates
               the SOCKS5 classes exhaustively; they are presented to real socks5.Server instances in server and client placement, to
-              an association's tunnel, as replies of a hostile proxy server / egress proxy, and to the socks5 dialer and UDP
+              an association's tunnel, to the relay socket of a datagram-mode association and of the client-side association, as replies of a hostile proxy server / egress proxy, and to the socks5 dialer and UDP
               transceiver.  The real endpoints run in a child process that flushes each event before acting, so a death is attributed
 code -> spec  TLC validates the event streams (Trace_HostilePeer, Trace_HostileSocks): NoCrash, VictimKeepsWorking /
               VictimKeepsBeingServed on what happened; membership of every unit in the specification's language as conformance
@@ -221,6 +221,8 @@ def run(ctx):
         add("user-to-server", ["message"], 250)
         add("user-to-client", ["greeting", "message"], 200)
         add("tunnel-datagram-to-server", ["datagram"], 200)
+        add("datagram-to-relay", ["datagram"], 200)
+        add("user-datagram-to-client", ["datagram"], 150)
         add("proxy-to-client", ["reply2", "message"], 200)
         add("egress-to-server", ["reply2", "message"], 200)
         add("proxy-to-dialer", ["reply2", "message"], 250)
